@@ -17,6 +17,7 @@ from mc.engine.report import Violation
 from mc.engine.seams import reset_library
 
 import ECAgent.Core as Core
+from ECAgent.Collectors import Collector
 from ECAgent.Decode import JsonDecoder, IDecodable
 
 MOD = __name__            # fixtures are resolved through sys.modules[<this module>]
@@ -73,6 +74,38 @@ class FxSystem(Core.System, IDecodable):
         LOG.append(['run', self.id])
 
 
+class FxCollector(Collector, IDecodable):
+    """A listed system that is a collector (other base-class constructor, other defaults)."""
+    @staticmethod
+    def decode(params):
+        LOG.append(['system', params['id'], _state(params.get('model'))])
+        return FxCollector(params['id'], params['model'], priority=params['priority'], frequency=params['frequency'],
+                           start=params['start'], end=params['end'])
+
+    def collect(self):
+        LOG.append(['run', self.id])
+
+
+LATE_MODULE = 'c18_late_models'
+
+
+def fx_provide(params):
+    """A pre-model hook that makes the model class available (a plug-in module registered just in time): the model
+    named in the description can only be found once this hook has run."""
+    import types
+    mod = types.ModuleType(LATE_MODULE)
+
+    class FxLateModel(FxModel):
+        @staticmethod
+        def decode(params):
+            m = FxLateModel()
+            LOG.append(['model', dict(params), id(m)])
+            return m
+    mod.FxLateModel = FxLateModel
+    sys.modules[LATE_MODULE] = mod
+    fx_hook(params)
+
+
 class FxAgent(Core.Agent, IDecodable):
     @staticmethod
     def decode(params):
@@ -115,6 +148,8 @@ def build_desc(case):
     nested_at = case.get('nested_at')
 
     def hook(name):
+        if name == 'pre_model' and case.get('late_model'):
+            return ent({'func': 'fx_provide', 'params': {'name': name}})
         return ent({'func': 'fx_nested' if name == nested_at else 'fx_hook', 'params': {'name': name}})
 
     hooks = case['hooks']       # dict name -> bool
@@ -122,13 +157,15 @@ def build_desc(case):
     if case.get('complete_model'):
         mparams['complete'] = True
     desc = {'model': ent({'name': 'FxModel', 'params': mparams}), 'systems': [], 'agents': []}
+    if case.get('late_model'):
+        desc['model'] = {'name': 'FxLateModel', 'module': LATE_MODULE, 'params': mparams}
     if hooks.get('pre_model'):
         desc['pre_model_decode'] = hook('pre_model')
     if hooks.get('post_model'):
         desc['post_model_decode'] = hook('post_model')
     for i, prio in enumerate(case['prios']):
-        s = ent({'name': 'FxSystem', 'params': {'id': f's{i}', 'priority': prio, 'frequency': 1 + i, 'start': 0,
-                                                'end': 7 + i}})
+        s = ent({'name': 'FxCollector' if case.get('sys_kind') == 'collector' else 'FxSystem',
+                 'params': {'id': f's{i}', 'priority': prio, 'frequency': 1 + i, 'start': 0, 'end': _end(case, i)}})
         if hooks.get(f'pre_s{i}'):
             s['pre_system_init'] = hook(f'pre_s{i}')
         if hooks.get(f'post_s{i}'):
@@ -144,6 +181,10 @@ def build_desc(case):
             a['post_agent_init'] = hook(f'post_g{g}')
         desc['agents'].append(a)
     return desc
+
+
+def _end(case, i):
+    return 0 if case.get('end0') and i == 0 else 7 + i
 
 
 def expected_log(case, mid, v2=False):
@@ -188,7 +229,7 @@ def decode_case(case):
     main = sys.modules['__main__']
     me = sys.modules[MOD]
     me.fx_hook = _FX_HOOK_V1
-    for name in ('FxModel', 'FxSystem', 'FxAgent', 'fx_hook', 'fx_nested'):
+    for name in ('FxModel', 'FxSystem', 'FxCollector', 'FxAgent', 'fx_hook', 'fx_nested', 'fx_provide'):
         setattr(main, name, getattr(me, name))     # resolution target when the description omits "module"
     tmp = tempfile.mkdtemp(prefix='c18-')
     try:
@@ -227,6 +268,7 @@ def decode_case(case):
             if v2:      # the hook function is re-defined between two decodes (same module object, same name)
                 me.fx_hook = fx_hook_v2
                 main.fx_hook = fx_hook_v2
+            sys.modules.pop(LATE_MODULE, None)      # a just-in-time module is provided anew by every decode's hook
             m = dec.decode(path)
             log = [list(e) for e in LOG]
             mids = [e[2] for e in log if e[0] == 'model']
@@ -279,9 +321,9 @@ def check_model(m, case):
     for i, prio in enumerate(case['prios']):
         s = m.systems[f's{i}']
         got = [s.priority, s.frequency, s.start, s.end, s.model is m]
-        if got != [prio, 1 + i, 0, 7 + i, True]:
-            raise Violation(f'system s{i} does not carry its declared scheduling', expected=[prio, 1 + i, 0, 7 + i, True],
-                            observed=got)
+        if got != [prio, 1 + i, 0, _end(case, i), True]:
+            raise Violation(f'system s{i} does not carry its declared scheduling',
+                            expected=[prio, 1 + i, 0, _end(case, i), True], observed=got)
     want_agents = [f'g{g}_{i}' for g, n in enumerate(case['sizes']) for i in range(n)]
     got_agents = [a.id for a in m.environment]
     if got_agents != want_agents:
@@ -362,6 +404,19 @@ def cases(tier):
             out.append(dict(base, key_order='reversed'))
             out.append(dict(base, imposters=True))
             out.append(dict(base, rewrite=True))
+            out.append(dict(base, late_model=True))
+            out.append(dict(base, late_model=True, hooks={'pre_model': True}))
+    # listed systems that are collectors (incl. priority 0 and an end of 0: values that are falsy), all hooks / none
+    for ns in (1, 2):
+        for prios in PRIOS[ns]:
+            for ng in (0, 1):
+                for hk in (True, False):
+                    for end0 in (False, True):
+                        out.append({'leg': 'decode', 'prios': list(prios), 'sizes': [2][:ng], 'module_key': True,
+                                    'hooks': {n: hk for n in hook_names(ns, ng)}, 'sys_kind': 'collector', 'end0': end0})
+                        if end0:
+                            out.append({'leg': 'decode', 'prios': list(prios), 'sizes': [2][:ng], 'module_key': True,
+                                        'hooks': {n: hk for n in hook_names(ns, ng)}, 'end0': True})
     return out
 
 
